@@ -1695,7 +1695,9 @@ class DeepDiff(ResultDict, SerializationMixin, DistanceMixin, DeepDiffProtocol, 
                 return
             # This is an edge case where t1=None or t2=None and None is in the ignore type group.
             if level.t1 is None or level.t2 is None:
-                self._report_result('values_changed', level, local_tree=local_tree)
+                # Both can be None once an Enum member whose value is None was unwrapped: nothing changed then.
+                if level.t1 is not level.t2:
+                    self._report_result('values_changed', level, local_tree=local_tree)
                 return
 
         if self.ignore_nan_inequality and isinstance(level.t1, (float, np_floating)) and str(level.t1) == str(level.t2) == 'nan':
